@@ -819,7 +819,10 @@ class G:
                 fb.append(Ret(self.expr('num', 2, env, 0.0, False)))
             else:
                 fb.append(ExprS(self.expr('num', 1, env, 0.0, False)))
-            body.append(Func(fn, params, fb))
+            # some methods have a handler of their own: a call with the wrong number of arguments is the CALLER's error and runs
+            # none of the callee, handler included
+            hs = [('异常', [ExprS(Call('显示', [Str('内拦'), Str(fn)])), Ret(Num('-1'))])] if rng.random() < 0.35 else []
+            body.append(Func(fn, params, fb, hs))
             funcs.append((fn, ar))
         # recursion
         depth = rng.choice([0, 3, 10, 50, 300])
@@ -889,10 +892,17 @@ class G:
                           # stays an unknown property)
                           getters=([Func('和', [], [Ret(Bin('+', This('横'), Num('1')))], getter=True)] if rng.random() < 0.4 else [])))
         if rng.random() < 0.7:
-            body.append(Func('点', ['初横'], [ExprS(Assign(This('横'), Var('初横')))], ctor=True))
+            # the constructor refuses a negative argument by throwing — directly, or one call below
+            body.append(Func('验初', ['数'], [If(Bin('lt', Var('数'), Num('-50')), [Throw('异常', [Str('太负')])]), Ret(Var('数'))]))
+            body.append(Func('点', ['初横'], [If(Bin('lt', Var('初横'), Num('0')), [Throw('异常', [Str('负初')])]),
+                                             ExprS(Assign(This('横'), Call('验初', [Var('初横')]))), ], ctor=True))
             ctor_ar = 1
         else:
             ctor_ar = 0
+        # constructs under a handler: what the handler sees is the exception the constructor threw (message included); with the wrong
+        # number of arguments the construction is the caller's error as well
+        body.append(Func('试建', ['数'], [Decl(['新'], New('点', [Var('数')] if ctor_ar else [])), Ret(Prop(Var('新'), '横'))],
+                         [('异常', [ExprS(Call('显示', [Str('建拦'), This('内容')])), Ret(This('内容'))])]))
         main = []
         objs = []
 
@@ -925,6 +935,12 @@ class G:
                     main.append(ExprS(Call('显示', [Call(fn, args)])))
             elif r < 0.36:
                 main.append(ExprS(Call('显示', [Call('递', [Num(str(depth))])])))
+            elif r < 0.40:
+                kk = rng.random()
+                if kk < 0.7:
+                    main.append(ExprS(Call('显示', [Call('试建', [Num(rng.choice(['3', '-1', '-2', '0', '-60', '-100']))])])))
+                else:
+                    main.append(ExprS(Call('显示', [Call('试建', [Num('1')] * rng.choice([0, 2]))])))
             elif r < 0.43:
                 k = rng.random()
                 if k < 0.45:
@@ -975,6 +991,10 @@ class G:
                     else:
                         # … and a failure handled inside the other object's method, 0–3 calls below the handler
                         main.append(ExprS(Call('显示', [MCall(Var(a), [('探', [Num(str(rng.randint(0, 3)))])])])))
+                elif k < 0.90:
+                    # links run strictly one after the other: the second link's argument is read AFTER the first link has run
+                    main.append(ExprS(Call('显示', [MCall(Var(o), [('移', [Num(rng.choice(SMALL_INTS))]), ('加', [Prop(Var(o), '横')])]),
+                                                  MCall(Var(o), [('己', []), ('移', [MCall(Var(o), [('移', [Num('1')])])]), ('乘', [Prop(Var(o), '横')])])])))
                 elif k < 0.93:
                     main.append(ExprS(Call('显示', [MCall(Var(o), [(rng.choice(['无此法', '移']), [])])])))
                 else:
@@ -999,9 +1019,13 @@ class G:
             return ExprS(Call('显示', [Var('未定名')])), False
         if k < 0.74:
             return Throw('自定错', [Str('文%d' % self.fresh())]), True
-        if k < 0.87:
+        if k < 0.84:
             # a failing built-in method: the frame on top when it fails is a native one
             return ExprS(Call('显示', [MCall(Num('100'), [('除', [Num('0')])])])), False
+        if k < 0.92:
+            # the raise point is a DECLARATION of the body (a type whose default faults): declarations run first, and their faults
+            # belong to the body's handlers like any other
+            return Class('盒%d' % self.fresh(), [('每份', Bin('/', Num('100'), Num('0')))], []), False
         return ExprS(MCall(Num('1'), [('无此法', [])])), False
 
     def exc_program(self):
@@ -1028,9 +1052,15 @@ class G:
                 # mostly: the inner handler matches what reaches it
                 hcls = '自定错' if isinstance(fstmt, Throw) and fstmt.cls == '自定错' else '异常'
 
+        # … and some levels are constructors (如何新建建i？): an exception thrown in a constructor body — or anywhere below it — crosses the
+        # 新建 boundary as itself (type and message)
+        is_ctor = [False] + [(not is_meth[i]) and rng.random() < 0.2 for i in range(1, depth + 1)]
+
         def call_level(j, arg):
             if is_meth[j]:
                 return MCall(Var('体%d' % j), [(names[j - 1], [arg])])
+            if is_ctor[j]:
+                return Prop(New('建%d' % j, [arg]), '值')
             return Call(names[j - 1], [arg])
 
         def handler_tail(hb, i):
@@ -1073,7 +1103,10 @@ class G:
                 fb.append(ExprS(Assign(This('次'), Bin('+', This('次'), Num('1')))))
             else:
                 fb.append(ExprS(Call('显示', [Str('出%d' % i)])))
-            fb.append(Ret(Num(str(10 * i))))
+            if is_ctor[i]:
+                fb.append(ExprS(Assign(This('值'), Num(str(10 * i)))))
+            else:
+                fb.append(Ret(Num(str(10 * i))))
             catches = []
             if handler_at == i:
                 hb = [ExprS(Call('显示', [Str('拦%d' % i)]))]
@@ -1098,7 +1131,11 @@ class G:
                 hb = [ExprS(Call('显示', [Str('外拦%d' % i)]))]
                 handler_tail(hb, i)
                 catches.append((ocls, hb))
-            (meths if is_meth[i] else funcs).append(Func(names[i - 1], ['参'], fb, catches))
+            if is_ctor[i]:
+                funcs.append(Class('建%d' % i, [('值', Num('0'))], []))
+                funcs.append(Func('建%d' % i, ['参'], fb, catches, ctor=True))
+            else:
+                (meths if is_meth[i] else funcs).append(Func(names[i - 1], ['参'], fb, catches))
         if any(is_meth):
             body.append(Class('户', [('名', Str('无')), ('次', Num('0'))], meths))
         body += funcs
